@@ -254,12 +254,12 @@ def grad_cholesky(L, A):
     phi = lambda X: anp.tril(X) / (1.0 + anp.eye(X.shape[-1]))
 
     def conjugate_solve(L, X):
-        # X -> L^{-T} X L^{-1}
-        return solve_trans(L, T(solve_trans(L, T(X))))
+        # X -> L^{-T} X conj(L)^{-1}
+        return solve_trans(L, T(solve_trans(anp.conj(L), T(X))))
 
     def vjp(g):
         S = conjugate_solve(L, phi(anp.einsum("...ki,...kj->...ij", L, g)))
-        return (S + T(S)) / 2.0
+        return (S + anp.conj(T(S))) / 2.0
 
     return vjp
 
